@@ -13,7 +13,7 @@ MAXS = P.get("maxs", 2)
 UE = P.get("unicode_escape", False)
 SIGMA = ["a", "/", "~", "0", "1", "+", "-", "²", "#", "", " ", "é", "١", "\U0001F600", "_", "2", "\x01", "１", "'", "b"][: P.get("sigma", 20)]
 # escaped-form token pieces for join/slash (t is given in escaped form)
-PIECES = ["a", "~1", "~0", "0", "1 ", "+1", "-", "#", "", "é", "01", "a\t", "-1", "1", "\U0001F600", "b", "~01", "a\u00a0"][: P.get("pieces", 18)]
+PIECES = ["a", "~1", "~0", "0", "1 ", "+1", "-", "#", "", "é", "~01", "a\t", "01", "-1", "1", "\U0001F600", "b", "a\u00a0"][: P.get("pieces", 18)]
 BASES = ["", "/a", "/a/0", "/0", "/a~1b/~0", "//", "/é/1"]
 
 
